@@ -298,7 +298,7 @@ def record(fails, cfg, form, x, g, phase, only_reused=False):
         observed = '%s: %s' % (type(e).__name__, str(e)[:120])
         klass = '%s-in-%s' % (type(e).__name__, innermost(tb))
     if only_reused:
-        klass = 'only-with-reused-renderer:' + klass
+        klass = 'only-with-reused-renderer/' + klass
     ctor = '%s(%s)' % (path.rsplit('.', 1)[1], ', '.join('%s=%r' % kv for kv in sorted(opts.items())))
     arg = {'str': 'x', 'lines': 'x.splitlines(keepends=True)', 'file': 'io.StringIO(x)'}[form]
     fails.append({
@@ -457,7 +457,8 @@ def work(arg):
         run_family(fam, items, seed, stats, fails, n == 0)
     by_class = {}
     for f in fails:
-        by_class[f['class']] = by_class.get(f['class'], 0) + 1
+        for k in (f['class'], f['renderer'] + ':' + f['class']):
+            by_class[k] = by_class.get(k, 0) + 1
     return {'evaluations': stats['evaluations'], 'contract_evaluations': stats['contracts'],
             'distinct_nontrivial': stats['nontrivial'], 'admitted': stats['admitted'],
             'failures': keep_smallest(fails, MAX_KEEP), 'failures_total': len(fails), 'by_class': by_class,
@@ -489,7 +490,8 @@ def run(tier, seed, workers):
                 'set) is not empty and not a single paragraph of plain text',
         'exhaustive': True, 'admitted_refusals': sum(r['admitted'] for r in res),
         'failures_total': sum(r['failures_total'] for r in res),
-        'failures_by_class': dict(sorted(by_class.items(), key=lambda kv: -kv[1])),
+        'failures_by_class': dict(sorted(((k, v) for k, v in by_class.items() if ':' not in k), key=lambda kv: -kv[1])),
+        'failures_by_renderer_and_class': dict(sorted(((k, v) for k, v in by_class.items() if ':' in k), key=lambda kv: -kv[1])),
         'failing_inputs_distinct': sum(r['failing_inputs'] for r in res),
         'failures': keep_smallest(fails, MAX_KEEP)})
     return out
